@@ -322,6 +322,9 @@ func (ex *Exec) timeSub(a, b timeV) *Term {
 	} else {
 		diff = tc.Add(tc.Mul(dq, tc.BVConst(timeW, uint64(ex.grid))), ex.ext80(tc.Sub(a.rem, b.rem)))
 	}
+	if r, ok := ex.to64(diff); ok && !ex.job.NoNarrow {
+		return r
+	}
 	maxI := tc.BVConst(timeW, uint64(1<<63-1))
 	minI := tc.SignExt(tc.BVConst(64, 1<<63), timeW)
 	lo := tc.Extract(diff, 63, 0)
